@@ -90,7 +90,9 @@ var Schema = []string{
 	"CREATE TABLE t (id INTEGER PRIMARY KEY AUTOINCREMENT, tag TEXT NOT NULL, pad BLOB)",
 }
 
-// GenDB writes the SQLite file for load/boot k (WAL mode when k is odd).
+// GenDB writes the SQLite file for load/boot k (WAL mode when k is odd). The
+// rows are large enough for table t to span several leaf pages, so that pages
+// of a loaded database that later writes do not touch exist.
 func GenDB(path string, k int) error {
 	os.Remove(path)
 	db, err := sqlref.Open(path)
@@ -106,7 +108,7 @@ func GenDB(path string, k int) error {
 	m := LoadedModel(k)
 	stmts := []string{Schema[0], fmt.Sprintf("INSERT INTO c(n) VALUES(%d)", m.N), Schema[2]}
 	for _, t := range m.Tags {
-		stmts = append(stmts, fmt.Sprintf("INSERT INTO t(tag, pad) VALUES('%s', randomblob(%d))", t, 200+k*37))
+		stmts = append(stmts, fmt.Sprintf("INSERT INTO t(tag, pad) VALUES('%s', randomblob(%d))", t, 2600+k*137))
 	}
 	for _, s := range stmts {
 		if _, err := db.Exec(s); err != nil {
